@@ -11,17 +11,17 @@ pub mod l1 {
       relation r0(i64, i64);
       relation r1(i64, i64);
       relation r2(i64);
-      lattice r3(i64, i64);
-      lattice r4(Dual<i64>);
-      r3(v0, (*v0)) <-- r1(v0, 0);
+      lattice r3(i64, Dual<i64>);
+      lattice r4(Option<i64>);
+      r3(v0, Dual((*v0))) <-- r1(v0, 0);
       r3(((*v2) + 1), v1) <-- r3(v0, v1), r1(v2, v2), if ((*v2) < 6);
-      r3(((*v0) + 1), (*v0)) <-- r3(v0, v1), r3(v0, v2), if ((*v0) < 6);
-      r4(Dual(1)) <-- r0(v0, v1) if ((*v1) < 5);
-      r4(Dual(((v0.0) + 0))) <-- r4(v0), r1(v1, v1) if ((*v1) < 6);
-      r4(Dual((*v0))) <-- r2(v0);
-      r0(2, 3) <-- r4(v0), r4(v1);
-      r3(v0, (*v0)) <-- r1(v0, v0), r0(v1, v1);
-      r4(Dual(4)) <-- r3(v0, v1);
+      r3(((*v0) + 1), Dual((*v0))) <-- r3(v0, v1), r3(v0, v2), if ((*v0) < 6);
+      r4(Some(1)) <-- r0(v0, v1) if ((*v1) < 5);
+      r4(v0) <-- r4(v0), r2(v1);
+      r4(v1) <-- r4(v0), r4(v1);
+      r2(v0) <-- r1(3, v0), r4(v1);
+      r3(1, Dual(3)) <-- r4(v0), r3(v1, v2);
+      r1(v0, v0) <-- r2(v0), r0(v0, v0);
    }
    pub struct Inst { p: Prog, pool: Option<ascent::rayon::ThreadPool> }
    pub fn make(pool: Option<usize>) -> Box<dyn Driver> {
@@ -35,13 +35,14 @@ pub mod l1 {
          0 => { let v: Vec<(i64,i64,)> = parse_rows(rows)?; if append { self.p.r0.extend(v) } else { self.p.r0 = v } },
          1 => { let v: Vec<(i64,i64,)> = parse_rows(rows)?; if append { self.p.r1.extend(v) } else { self.p.r1 = v } },
          2 => { let v: Vec<(i64,)> = parse_rows(rows)?; if append { self.p.r2.extend(v) } else { self.p.r2 = v } },
-         3 => { let v: Vec<(i64,i64,)> = parse_rows(rows)?; if append { self.p.r3.extend(v) } else { self.p.r3 = v } },
-         4 => { let v: Vec<(Dual<i64>,)> = parse_rows(rows)?; if append { self.p.r4.extend(v) } else { self.p.r4 = v } },
+         3 => { let v: Vec<(i64,Dual<i64>,)> = parse_rows(rows)?; if append { self.p.r3.extend(v) } else { self.p.r3 = v } },
+         4 => { let v: Vec<(Option<i64>,)> = parse_rows(rows)?; if append { self.p.r4.extend(v) } else { self.p.r4 = v } },
             _ => return None,
          }
          Some(())
       }
       fn run(&mut self) { match &self.pool { Some(pl) => { let p = &mut self.p; pl.install(|| p.run()) }, None => self.p.run() } }
+      fn run_here(&mut self) { self.p.run() }
       fn run_timeout(&mut self, k: usize) -> Option<bool> { let _ = k; None }
       fn dump(&self) -> String { vec![dump_rel(0, self.p.r0.iter().map(Row::render).collect()), dump_rel(1, self.p.r1.iter().map(Row::render).collect()), dump_rel(2, self.p.r2.iter().map(Row::render).collect()), dump_rel(3, self.p.r3.iter().map(Row::render).collect()), dump_rel(4, self.p.r4.iter().map(Row::render).collect())].join(" | ") }
       fn iters(&self) -> String { format!("iters {}", self.p.scc_iters.iter().map(|x| x.to_string()).collect::<Vec<_>>().join(" ")) }
@@ -58,15 +59,15 @@ pub mod l9 {
       pub struct Prog;
       relation r0(i64, i64, i64);
       relation r1(i64);
-      lattice r2(i64, Option<i64>);
-      lattice r3(i64, i64, Option<i64>);
-      r2(v0, None) <-- r1(v0);
-      r2(v0, v1) <-- r2(v0, v1), r0(v0, 2, v0) if ((*v0) < 2);
-      r3(v0, v0, Some(1)) <-- r1(v0);
-      r3(v0, v0, v1) <-- r3(v0, v0, v1), r0(v2, 3, v2);
-      r1(((*v0) + 1)) <-- r2(v0, v1), r1(v0), if ((*v0) < 6);
-      r0(2, v1, v1) <-- r1(v0), r3(v0, v1, v2) if ((*v0) < 6);
-      r3(0, 3, v0) <-- r2(3, v0);
+      lattice r2(i64, Set<i64>);
+      lattice r3(i64, i64, Set<i64>);
+      r2(v0, Set::singleton((*v0))) <-- r1(v0);
+      r3(v0, v1, Set::singleton((*v0))) <-- r0(v0, v1, v1);
+      r3(v0, v0, Set::singleton(3)) <-- r3(v0, v0, v1), r1(v0) if ((*v0) < 4);
+      r3(v0, v0, v2) <-- r3(v0, v1, v2), r3(3, v1, v3);
+      r3(0, ((*v1) + 1), v2) <-- r1(v0), r2(v1, v2), if ((*v1) < 6);
+      r3(v1, v1, v0) <-- r2(1, v0), r3(0, v1, v2) if ((*v1) < 3);
+      r3(v0, v1, Set::singleton((*v0))) <-- r3(v0, v1, v2) if ((*v0) < 6);
    }
    pub struct Inst { p: Prog, pool: Option<ascent::rayon::ThreadPool> }
    pub fn make(pool: Option<usize>) -> Box<dyn Driver> {
@@ -79,13 +80,14 @@ pub mod l9 {
          match rel {
          0 => { let v: Vec<(i64,i64,i64,)> = parse_rows(rows)?; if append { self.p.r0.extend(v) } else { self.p.r0 = v } },
          1 => { let v: Vec<(i64,)> = parse_rows(rows)?; if append { self.p.r1.extend(v) } else { self.p.r1 = v } },
-         2 => { let v: Vec<(i64,Option<i64>,)> = parse_rows(rows)?; if append { self.p.r2.extend(v) } else { self.p.r2 = v } },
-         3 => { let v: Vec<(i64,i64,Option<i64>,)> = parse_rows(rows)?; if append { self.p.r3.extend(v) } else { self.p.r3 = v } },
+         2 => { let v: Vec<(i64,Set<i64>,)> = parse_rows(rows)?; if append { self.p.r2.extend(v) } else { self.p.r2 = v } },
+         3 => { let v: Vec<(i64,i64,Set<i64>,)> = parse_rows(rows)?; if append { self.p.r3.extend(v) } else { self.p.r3 = v } },
             _ => return None,
          }
          Some(())
       }
       fn run(&mut self) { match &self.pool { Some(pl) => { let p = &mut self.p; pl.install(|| p.run()) }, None => self.p.run() } }
+      fn run_here(&mut self) { self.p.run() }
       fn run_timeout(&mut self, k: usize) -> Option<bool> { let _ = k; None }
       fn dump(&self) -> String { vec![dump_rel(0, self.p.r0.iter().map(Row::render).collect()), dump_rel(1, self.p.r1.iter().map(Row::render).collect()), dump_rel(2, self.p.r2.iter().map(Row::render).collect()), dump_rel(3, self.p.r3.iter().map(Row::render).collect())].join(" | ") }
       fn iters(&self) -> String { format!("iters {}", self.p.scc_iters.iter().map(|x| x.to_string()).collect::<Vec<_>>().join(" ")) }
